@@ -61,8 +61,33 @@ def blocks_exhaustive():
                                    "wrap": wrap, "only_nonzero": onz}
 
 
+def pack_boundary():
+    """rows that collide exactly when the range guard of the bit packing is off by one (derived from
+    the packing model: value T+d in one field carries into / falls off the next field)"""
+    for cols in (2, 3, 4):
+        T = 2 ** (64 // cols - 1)
+        for d in (-2, -1, 0, 1):
+            for j in range(cols):
+                for sgn in (1, -1):
+                    r1 = [0] * cols
+                    r2 = [0] * cols
+                    r1[j] = sgn * (T + d)
+                    r2[j] = -sgn * (T + d)
+                    if j + 1 < cols:
+                        r2[j + 1] = 1
+                    r3 = [5] * cols
+                    r3[j] = T + d
+                    r4 = [5] * cols
+                    r4[j] = -(T + d)
+                    rows = [r1, r2, r3, r4, list(r1)]
+                    yield {"kind": "hashable", "cols": cols, "rows": rows}
+                    yield {"kind": "unique_rows", "cols": cols, "rows": rows, "keep_order": False}
+                    yield {"kind": "group_rows", "cols": cols, "rows": rows, "count": None}
+
+
 def cases(ctx):
     rng = ctx.rng
+    yield from pack_boundary()
     if ctx.tier == "thorough":
         yield from blocks_exhaustive()
     while True:
@@ -109,7 +134,8 @@ def cases(ctx):
             yield {"kind": k, "rows": [[rng.randint(-1, 2) for _ in range(cols)] for _ in range(rng.randint(1, 6))]}
         elif k == "blocks":
             n = rng.randint(1, 14)
-            yield {"kind": k, "data": _vals(rng, 0, 2, n), "min_len": rng.choice([1, 1, 2, 3]),
+            lo = rng.choice([0, 0, -2])
+            yield {"kind": k, "data": _vals(rng, lo, 2, n), "min_len": rng.choice([1, 1, 2, 3]),
                    "max_len": rng.choice([None, None, 2, 4]), "wrap": rng.random() < 0.5,
                    "only_nonzero": rng.random() < 0.4}
 
